@@ -1298,6 +1298,17 @@ class Interp:
                     self._mut_event(f.value, f.attr, args, e, st, fr, list(e.args))
                 return Unk(f"{ast.unparse(f)}()")
         fname = f.id if isinstance(f, ast.Name) else None
+        if fname in self.repo.enums and len(e.args) == 1 and not e.keywords:
+            av = self.eval(e.args[0], st, fr)
+            iv = None
+            if isinstance(av, EnumSet) and av.single() is not None:
+                iv = self.repo.enums[av.cls][av.single()]
+            elif isinstance(av, Poly) and av.is_const() and av.const_value().denominator == 1:
+                iv = int(av.const_value())
+            if iv is not None:
+                ms = [m for m, val in self.repo.enums[fname].items() if val == iv]
+                if ms:
+                    return EnumSet(fname, [ms[0]])
         if fname in ("all", "any") and len(e.args) == 1:
             inner = self._eval_iterable(e.args[0], st, fr)
             if isinstance(inner, ListV):
@@ -1325,6 +1336,10 @@ class Interp:
                         st.env = saved
                     else:
                         vals.append(it)
+                if all(isinstance(v, EnumSet) and v.single() is not None for v in vals):
+                    ints = [self.repo.enums[v.cls][v.single()] for v in vals]
+                    pick = max(range(len(ints)), key=lambda i: ints[i]) if fname == "max" else min(range(len(ints)), key=lambda i: ints[i])
+                    return inner.items[pick]
                 if all(isinstance(v, Poly) for v in vals):
                     best = 0
                     decided = True
